@@ -16,6 +16,7 @@ APc(p) == CASE p = 0   -> "idle"
             [] p = 415 -> "c_pause"  [] p = 416 -> "c_paused" [] p = 417 -> "c_resume"
             [] p = 418 -> "s_lock"   [] p = 419 -> "s_locked" [] p = 420 -> "s_unlock" [] p = 421 -> "s_post"
             [] p = 423 -> "s_join"
+            [] p = 490 -> "a_inlogger"
             [] OTHER   -> "?"
 WPc(p) == CASE p = 400 -> "wait" [] p = 401 -> "woken" [] p = 402 -> "locked" [] p = 403 -> "exit"
             [] p = 404 -> "dequeue" [] p = 405 -> "write" [] p = 406 -> "unlock" [] p = 490 -> "inlogger"
@@ -52,7 +53,7 @@ TStep(ev) ==
             /\ CASE a[3] = 0 -> AStep
                  [] a[3] = 1 -> CallInit
                  [] a[3] = 6 -> CallStart
-                 [] a[3] = 7 -> CallLog /\ posted' = a[4]
+                 [] a[3] = 7 -> (IF threaded THEN CallLog ELSE CallLogSync) /\ posted' = a[4]
                  [] a[3] = 8 -> CallFini
                  [] a[3] \in {2, 3, 4, 5} -> CallCtl(<<CtlName(a[3]), a[4]>>)
             /\ apc' = APc(r[1])
